@@ -17,7 +17,7 @@ for l in open(os.path.join(ROOT, "properties.jsonl")):
     d = json.loads(l)
     TITLES[d["id"]] = d["title"]
 
-ALSO = {"C02": ["C02Energy"], "C03": ["C03Enum"], "C07": ["C07Limits"], "C08": ["C08Apply"], "C09": ["C09Analytic"], "C13": ["C13Inverse"], "C16": ["C16Dyn", "C16Herm"], "C04": ["C04Labels"], "C17": ["C17Bound", "C17Positive"], "C12": ["C12Weyl", "C12Average", "C12Pref"]}
+ALSO = {"C02": ["C02Energy", "C02Deph"], "C03": ["C03Enum"], "C07": ["C07Limits"], "C08": ["C08Apply"], "C09": ["C09Analytic"], "C13": ["C13Inverse"], "C16": ["C16Dyn", "C16Herm"], "C04": ["C04Labels"], "C17": ["C17Bound", "C17Positive"], "C12": ["C12Weyl", "C12Average", "C12Pref", "C12Design", "C12DesignT8"]}
 SHARED = {"C02": ["Lemmas/Taylor", "Lemmas/TruncBound"], "C07": ["Lemmas/Taylor"], "C08": ["Lemmas/Taylor", "Lemmas/TruncBound"],
           "C17": ["Lemmas/Taylor"], "C16": [], "C18": ["Props/C04"], "C12": ["Props/C19"], "C06": []}
 
@@ -107,7 +107,17 @@ def section6():
         rows.append("| %s | %s | %s | %s |" % (m["seed_id"], summ[:150] + ("…" if len(summ) > 150 else ""),
                                               "yes" if m.get("check_result", {}).get("detected") else "NO", "<br>".join(parts) or "-"))
     head = "| seed | change (sub-agent's summary, shortened) | quick check alarms | noticed by |\n|---|---|---|---|\n"
-    return head + "\n".join(rows)
+    brow = []
+    for d in sorted(glob.glob(os.path.join(ROOT, "benign", "*-h*"))):
+        m = json.load(open(os.path.join(d, "meta.json")))
+        cr = m.get("check_result", {})
+        summ = m.get("summary", "").replace("|", "/").replace("\n", " ")
+        how = "quiet" if cr.get("quiet") else "ALARM: " + str(cr.get("line", ""))[:80]
+        ev = {}
+        brow.append("| %s | %s | %s |" % (m["rewrite_id"], summ[:170] + ("…" if len(summ) > 170 else ""), how))
+    bhead = ("\n\n*Behaviour-preserving rewrites* (`benign/`, `harness/benigntest.py run`; expected: quiet).\n\n"
+             "| rewrite | what was rewritten (sub-agent's summary, shortened) | quick check |\n|---|---|---|\n")
+    return head + "\n".join(rows) + (bhead + "\n".join(brow) if brow else "")
 
 
 def main():
